@@ -29,7 +29,7 @@ META = dict(
     stubs=["np.random.normal/choice = fresh symbolic draws, logged with their arguments", "np.std = fresh value >= 0 (argument list logged)",
            "int() = truncation toward zero", "redraw loops cut after a per-path draw budget (counted)"],
     assumptions=["reference units labelled and longer than SEGMENT_PRECISION"],
-    cfg_budget_s=dict(quick=240, thorough=1700),
+    cfg_budget_s=dict(quick=240, thorough=900),
 )
 
 
